@@ -17,6 +17,7 @@
     with no entries left the guarded theorem IS the full statement. *)
 From PintV Require Import Model.UC Model.Eval Model.Registry Model.Standards Proofs.StandardsProofs.
 From PintV Require Import Model.Groups Model.Systems Model.StandardsBase Proofs.StandardsBaseProofs.
+From PintV Require Import Model.StandardsSymbols Proofs.StandardsSymbolsProofs.
 From PintV Require Import Gen.DefaultDefs Gen.DefaultReg Gen.Standards.
 Open Scope string_scope.
 
@@ -133,3 +134,32 @@ Example C20_farad_base_units :
     exp_of dest "kilogram" = mkq (-1) 1 ∧ exp_of dest "meter" = mkq (-2) 1 ∧
     exp_of dest "second" = mkq 4 1 ∧ exp_of dest "ampere" = mkq 2 1.
 Proof. exact farad_base_units. Qed.
+
+(** * Symbol ↔ unit: the standard symbols of the table, bare and behind every prefix symbol
+    (ms, mS, mA, ma, kA, mK, mH, mT, µF, KiB …), are read as that prefix and that unit.  Strings
+    that are a unit's own spelling (cd, Pa, min, ft) or have two readings are the ambiguity of the
+    symbols themselves (C08) and carry verdict [SVOwn] / [SVAmbiguous]; [SVBad] = the registry
+    reads the string as something else, or not at all.  The model's name resolution is a pure
+    function of the string: that the REAL registry answers the same on a fresh instance and after
+    earlier (case-insensitive, long-name, plural) queries is the harness's history oracle. *)
+(** what the good verdict says, for every registry *)
+Theorem C20_symbol_verdict_sound cheap r p ps row us :
+  prefixed_symbol_verdict cheap r p ps row us = SVOk →
+  ∃ ud pv, r_units r !! us = Some ud ∧ r_units r !! (ps ++ us) = None ∧ sp_value p = Some pv ∧
+           parse_unit_name r (ps ++ us) = [(sp_name p, u_name ud)] ∧
+           (cheap = false → prefixed_value_ok r row pv (ps ++ us) = true).
+Proof. exact (verdict_ok_reading cheap r p ps row us). Qed.
+(** every prefix symbol × every symbol of every unlisted row (finite: about 5 400 strings) *)
+Theorem C20_defaults_symbols_match_standards_guarded :
+  symbols_ok_except true known_deviations default_reg std_prefixes standards = true.
+Proof. exact defaults_symbols_match_standards. Qed.
+Theorem C20_defaults_symbols_match_standards_guarded_forall row :
+  In row standards → listed known_deviations row = false → sym_row_eligible default_reg row = true →
+  bare_symbol_ok (shared_symbols standards) default_reg row = true ∧
+  ∀ sv, In sv (prefixed_symbols_of true (shared_symbols standards) default_reg std_prefixes row) →
+        verdict_fine sv.2 = true.
+Proof. exact (defaults_symbols_match_standards_forall row). Qed.
+(** the symbols whose unit letter exists in both cases (s/S, a/A, k/K, h/H, t/T, c/C, g/G, m/M,
+    d/D, l/L, b/B, u/U), each with its reading AND its value (prefix × unit factor, dimension) *)
+Example C20_case_pair_symbols : forallb (case_pair_ok default_reg) case_pairs = true.
+Proof. exact case_pair_symbols. Qed.
